@@ -398,9 +398,9 @@ UpdRet(m, e, s2) ==
                 ViolIf(ViolIf(ViolIf(ViolIf(mm1, \E o \in rs : m.runs[o].span = 0, "C42:run-without-span"),
                                      \E o \in rs : m.runs[o].span # 0 /\ m.runs[o].spanEnds = 0, "C42:span-not-ended"),
                               \E o \in rs : m.runs[o].spanEnds > 1, "C42:span-ended-twice"),
-                       \E o \in rs : m.runs[o].spanEnds = 1 /\ m.runs[o].stopped = 1 /\ m.runs[o].spanStatus # m.runs[o].status
-                                            \* (a plan that closes its run itself after abort/stop/halt chooses the status: not compared)
-                                            /\ (m.runs[o].engineClosed \/ (m.term = {} /\ m.termLate = {})), "C42:span-status-differs")
+                       \* (also for a run the plan closes itself after an abort/stop/halt: the span carries what the RunStop carries)
+                       \E o \in rs : m.runs[o].spanEnds = 1 /\ m.runs[o].stopped = 1 /\ m.runs[o].spanStatus # m.runs[o].status,
+                       "C42:span-status-differs")
              ELSE mm1
       \* C09: a deferred pause that met no checkpoint stays reported as pending until the next plan starts
       mmD == ViolIf(mmS, st = "idle" /\ m.deferPending /\ ~m.deferCkpt /\ m.term = {} /\ m.termLate = {} /\ ~m.failedPause /\ e[5] # "D",
